@@ -24,10 +24,10 @@ From BigNum Require Import Pow SpecPow PowProofs Gcd SpecGcd GcdProofs GcdProofs
 From BigNum Require Import Monty Modpow SpecModpow MontyProofs ModinvZ ModpowProofs ModpowInst InstModpow.
 From BigNum Require Import SpecBytes BytesLemmas Radix RadixText RadixKernels RadixApi SpecRadix
   RadixProofs RadixProofs2 RadixProofs3 RadixTextProofs RadixInst InstRadix InstRadixMul.
-From BigNum Require Import Sign SpecSign SignProofs Rand SpecRand RandProofs.
+From BigNum Require Import Sign SpecSign SignProofs InstSign Rand SpecRand RandProofs InstRand.
 From BigNum Require Import Prim SpecPrim PrimProofsCast PrimProofs PrimProofsFloat PrimProofsToFloat
   PrimProofsFromFloat InstPrim.
-From BigNum Require Import BitDigits BitDigitsProofs Iter IterProofs Bytes BytesProofs SignedBytesProofs.
+From BigNum Require Import BitDigits BitDigitsProofs Iter IterProofs Bytes BytesProofs SignedBytesProofs InstIter InstBytes.
 Import ListNotations.
 Open Scope Z_scope.
 
@@ -595,12 +595,12 @@ Print Assumptions C14_to_radix_never_panics_in_range.
     The RNG is a finite scripted word stream: besides returning, the model can only run out of
     script ([OutOfFuel]); it never panics otherwise. *)
 Theorem C14_rand_biguint_range_panics_iff : forall lo hi s k, canon lo -> canon hi -> words s ->
-  (gen_biguint_range addsub lo hi s = Panic k <-> val hi <= val lo /\ k = EmptyRange) /\
-  (uu_sample_single addsub lo hi s = Panic k <-> val hi <= val lo /\ k = EmptyRange) /\
-  ((do u <- uu_new addsub lo hi; uu_sample addsub u s) = Panic k <-> val hi <= val lo /\ k = EmptyRange) /\
-  ((do u <- uu_new_inclusive addsub lo hi; uu_sample addsub u s) = Panic k <-> val hi < val lo /\ k = EmptyRange).
+  (gen_biguint_range Extracted.rand addsub lo hi s = Panic k <-> val hi <= val lo /\ k = EmptyRange) /\
+  (uu_sample_single Extracted.rand addsub lo hi s = Panic k <-> val hi <= val lo /\ k = EmptyRange) /\
+  ((do u <- uu_new Extracted.rand addsub lo hi; uu_sample Extracted.rand addsub u s) = Panic k <-> val hi <= val lo /\ k = EmptyRange) /\
+  ((do u <- uu_new_inclusive Extracted.rand addsub lo hi; uu_sample Extracted.rand addsub u s) = Panic k <-> val hi < val lo /\ k = EmptyRange).
 Proof.
-  intros lo hi s k Cl Ch Ws. pose proof addsub_params_ok as Ha.
+  intros lo hi s k Cl Ch Ws. pose proof addsub_params_ok as Ha. pose proof rand_params_ok as Hr.
   unfold uu_sample_single.
   rewrite gen_biguint_range_spec, uu_new_sample_spec, uu_new_inclusive_sample_spec by auto.
   rewrite !omap_panic_iff.
@@ -609,12 +609,12 @@ Qed.
 Print Assumptions C14_rand_biguint_range_panics_iff.
 
 Theorem C14_rand_bigint_range_panics_iff : forall lo hi s k, icanon lo -> icanon hi -> words s ->
-  (gen_bigint_range addsub lo hi s = Panic k <-> ival hi <= ival lo /\ k = EmptyRange) /\
-  (ui_sample_single addsub lo hi s = Panic k <-> ival hi <= ival lo /\ k = EmptyRange) /\
-  ((do u <- ui_new addsub lo hi; ui_sample addsub u s) = Panic k <-> ival hi <= ival lo /\ k = EmptyRange) /\
-  ((do u <- ui_new_inclusive addsub lo hi; ui_sample addsub u s) = Panic k <-> ival hi < ival lo /\ k = EmptyRange).
+  (gen_bigint_range Extracted.rand Extracted.signs addsub lo hi s = Panic k <-> ival hi <= ival lo /\ k = EmptyRange) /\
+  (ui_sample_single Extracted.rand Extracted.signs addsub lo hi s = Panic k <-> ival hi <= ival lo /\ k = EmptyRange) /\
+  ((do u <- ui_new Extracted.rand Extracted.signs addsub lo hi; ui_sample Extracted.rand Extracted.signs addsub u s) = Panic k <-> ival hi <= ival lo /\ k = EmptyRange) /\
+  ((do u <- ui_new_inclusive Extracted.rand Extracted.signs addsub lo hi; ui_sample Extracted.rand Extracted.signs addsub u s) = Panic k <-> ival hi < ival lo /\ k = EmptyRange).
 Proof.
-  intros lo hi s k Cl Ch Ws. pose proof addsub_params_ok as Ha.
+  intros lo hi s k Cl Ch Ws. pose proof addsub_params_ok as Ha. pose proof rand_params_ok as Hr. pose proof sign_params_ok as Hg.
   unfold ui_sample_single.
   rewrite gen_bigint_range_spec, ui_new_sample_spec, ui_new_inclusive_sample_spec by auto.
   rewrite !omap_panic_iff.
@@ -623,20 +623,20 @@ Qed.
 Print Assumptions C14_rand_bigint_range_panics_iff.
 
 Theorem C14_rand_below_panics_iff : forall bound s k, canon bound -> words s ->
-  (gen_biguint_below bound s = Panic k <-> val bound = 0 /\ k = EmptyRange) /\
-  (forall n, 0 <= n -> gen_biguint n s <> Panic k).
+  (gen_biguint_below Extracted.rand bound s = Panic k <-> val bound = 0 /\ k = EmptyRange) /\
+  (forall n, 0 <= n -> gen_biguint Extracted.rand n s <> Panic k).
 Proof.
   intros bound s k Cb Ws. split.
-  - rewrite gen_biguint_below_spec by auto. rewrite omap_panic_iff, spec_below_panic.
+  - rewrite gen_biguint_below_spec by auto using rand_params_ok. rewrite omap_panic_iff, spec_below_panic.
     pose proof (val_nonneg bound (proj1 Cb)). split; intros [? ?]; split; auto; lia.
-  - intros n Hn. rewrite gen_biguint_spec by auto. intros E. apply omap_panic_iff in E.
+  - intros n Hn. rewrite gen_biguint_spec by auto using rand_params_ok. intros E. apply omap_panic_iff in E.
     exact (spec_gen_biguint_no_panic _ _ _ E).
 Qed.
 Print Assumptions C14_rand_below_panics_iff.
 
 (* hence: a non-empty range returns a value unless the scripted stream ends *)
 Theorem C14_rand_range_otherwise : forall lo hi s, canon lo -> canon hi -> words s -> val lo < val hi ->
-  (exists r, gen_biguint_range addsub lo hi s = Ret r) \/ gen_biguint_range addsub lo hi s = OutOfFuel.
+  (exists r, gen_biguint_range Extracted.rand addsub lo hi s = Ret r) \/ gen_biguint_range Extracted.rand addsub lo hi s = OutOfFuel.
 Proof.
   intros lo hi s Cl Ch Ws Hlt. apply (only_panic_cases _ EmptyRange (val hi <= val lo)); [|lia].
   intros k. apply (C14_rand_biguint_range_panics_iff lo hi s k Cl Ch Ws).
@@ -676,37 +676,37 @@ Print Assumptions C14_conversions_never_panic.
 
 (** * C09 — byte / digit-vector conversions and the digit iterators never panic *)
 Theorem C14_bytes_never_panic :
-  (forall u, canon u -> total (uto_bytes_le u) /\ total (uto_bytes_be u) /\ total (uto_u32_digits u)) /\
-  (forall x, icanon x -> total (ito_bytes_le x) /\ total (ito_bytes_be x) /\ total (ito_u32_digits x) /\
-                         total (to_signed_bytes_le x) /\ total (to_signed_bytes_be x)) /\
-  (forall bs, inb 256 bs -> total (ufrom_bytes_le bs) /\ total (ufrom_bytes_be bs) /\
-                            total (from_signed_bytes_le bs) /\ total (from_signed_bytes_be bs) /\
-                            forall s, total (ifrom_bytes_le s bs) /\ total (ifrom_bytes_be s bs)).
+  (forall u, canon u -> total (uto_bytes_le Extracted.byteio u) /\ total (uto_bytes_be Extracted.byteio u) /\ total (uto_u32_digits Extracted.iter u)) /\
+  (forall x, icanon x -> total (ito_bytes_le Extracted.byteio x) /\ total (ito_bytes_be Extracted.byteio x) /\ total (ito_u32_digits Extracted.iter x) /\
+                         total (to_signed_bytes_le Extracted.byteio x) /\ total (to_signed_bytes_be Extracted.byteio x)) /\
+  (forall bs, inb 256 bs -> total (ufrom_bytes_le Extracted.byteio bs) /\ total (ufrom_bytes_be Extracted.byteio bs) /\
+                            total (from_signed_bytes_le Extracted.byteio bs) /\ total (from_signed_bytes_be Extracted.byteio bs) /\
+                            forall s, total (ifrom_bytes_le Extracted.byteio s bs) /\ total (ifrom_bytes_be Extracted.byteio s bs)).
 Proof.
   split; [|split]; intros; repeat split; eapply ret_never_panics.
-  - apply uto_bytes_le_spec; auto.
-  - apply uto_bytes_be_spec; auto.
-  - apply uto_u32_digits_spec; auto.
-  - apply ito_bytes_le_spec; auto.
-  - apply ito_bytes_be_spec; auto.
-  - apply ito_u32_digits_spec; auto.
-  - apply to_signed_bytes_le_spec; auto.
-  - apply to_signed_bytes_be_spec; auto.
-  - apply ufrom_bytes_le_spec; auto.
-  - apply ufrom_bytes_be_spec; auto.
-  - apply from_signed_bytes_le_spec; auto.
-  - apply from_signed_bytes_be_spec; auto.
-  - apply ifrom_bytes_le_spec; auto.
-  - apply ifrom_bytes_be_spec; auto.
+  - apply uto_bytes_le_spec; auto using bytes_params_ok.
+  - apply uto_bytes_be_spec; auto using bytes_params_ok.
+  - apply uto_u32_digits_spec; auto using iter_params_ok.
+  - apply ito_bytes_le_spec; auto using bytes_params_ok.
+  - apply ito_bytes_be_spec; auto using bytes_params_ok.
+  - apply ito_u32_digits_spec; auto using iter_params_ok.
+  - apply to_signed_bytes_le_spec; auto using bytes_params_ok.
+  - apply to_signed_bytes_be_spec; auto using bytes_params_ok.
+  - apply ufrom_bytes_le_spec; auto using bytes_params_ok.
+  - apply ufrom_bytes_be_spec; auto using bytes_params_ok.
+  - apply from_signed_bytes_le_spec; auto using bytes_params_ok.
+  - apply from_signed_bytes_be_spec; auto using bytes_params_ok.
+  - apply ifrom_bytes_le_spec; auto using bytes_params_ok.
+  - apply ifrom_bytes_be_spec; auto using bytes_params_ok.
 Qed.
 Print Assumptions C14_bytes_never_panic.
 
 (* every state reachable from `iter_u32_digits()` by any interleaving of calls *)
 Theorem C14_iter_never_panics : forall s, inv s ->
-  total (it_len s) /\ total (it_size_hint s) /\ total (it_count s).
+  total (it_len Extracted.iter s) /\ total (it_size_hint Extracted.iter s) /\ total (it_count Extracted.iter s).
 Proof.
   intros s Hs. repeat split; eapply ret_never_panics;
-    [apply it_len_spec|apply it_size_hint_spec|apply it_count_spec]; auto.
+    [apply it_len_spec|apply it_size_hint_spec|apply it_count_spec]; auto using iter_params_ok.
 Qed.
 Print Assumptions C14_iter_never_panics.
 (* The remaining models of C09 (unew, ufrom_slice, it_next, ...), C17 (serde) and C19 (sign
@@ -728,6 +728,6 @@ Example C14_nonvacuous :
   upow_big bmul pgr_pow [2] [0; 0; 1] = Panic MemOverflow /\
   unth_root bmul bdivrem addsub pgr_pow pgr_roots guess_nostd [5] 0 = Panic ZeroRoot /\
   isqrt bdivrem addsub pgr_roots guess_nostd (mkint Minus [4]) = Panic ImagRoot /\
-  gen_biguint_range addsub [5] [5] [1; 2] = Panic EmptyRange /\
-  gen_biguint_below [] [1; 2] = Panic EmptyRange.
+  gen_biguint_range Extracted.rand addsub [5] [5] [1; 2] = Panic EmptyRange /\
+  gen_biguint_below Extracted.rand [] [1; 2] = Panic EmptyRange.
 Proof. repeat split; vm_compute; reflexivity. Qed.
